@@ -39,6 +39,15 @@ def decodeStr (t : String) : Str :=
     | [h, n] => (List.replicate (natD n) (decodeCps h)).flatten
     | _ => decodeCps seg
 
+/-- short key of a regex pattern (length and a position-weighted checksum); the harness computes the same key
+    and checks at start-up that the patterns it uses have distinct keys -/
+def rxKey (p : Str) : String :=
+  let rec go (xs : List Nat) (i acc : Nat) : Nat :=
+    match xs with
+    | [] => acc
+    | x :: r => go r (i + 1) ((acc + i * x) % 1000003)
+  s!"k{p.length}_{go p 1 0}"
+
 def parseSig (t : String) : Sig :=
   match t.splitOn "/" with
   | [p, l, r] => ⟨decodeCps p, natD l, boolOf r⟩
@@ -86,24 +95,24 @@ def parseJsonOut (t : String) : JsonOut :=
   else .other
 
 /-- split the tokens of a line at `@` and `;` : (args, regex table, json outcome) -/
-def splitEnv (toks : List String) : List String × List (Str × Bool) × List String × JsonOut :=
+def splitEnv (toks : List String) : List String × List (String × Bool) × List String × JsonOut :=
   let args := toks.takeWhile (· ≠ "@")
   let rest := (toks.dropWhile (· ≠ "@")).drop 1
   let rxs := rest.takeWhile (· ≠ ";")
   let js := (rest.dropWhile (· ≠ ";")).drop 1
   let table := rxs.filterMap fun t =>
     match t.splitOn "=" with
-    | [p, b] => some (decodeCps p, boolOf b)
+    | [p, b] => some (p, boolOf b)
     | _ => none
   (args, table, rxs, match js with | j :: _ => parseJsonOut j | [] => .other)
 
-def mkEnv (table : List (Str × Bool)) (compiles : Bool) (js : JsonOut) : Env :=
+def mkEnv (table : List (String × Bool)) (compiles : Bool) (js : JsonOut) : Env :=
   { lower := lowerStd
-    rx := fun p _ => ((table.find? (fun e => e.1 = p)).map (·.2)).getD false
+    rx := fun p _ => (fun k => ((table.find? (fun e => e.1 = k)).map (·.2)).getD false) (rxKey p)
     compiles := fun _ => compiles
     json := fun _ => js }
 
-def showRx (ps : List Str) : String := showList (sorted (ps.map encodeCps))
+def showRx (ps : List Str) : String := showList (sorted (ps.map rxKey))
 
 def memStats (m : Membrane) : String :=
   s!"tf={m.totalFiltered} tb={m.totalBlocked} ln={m.learned.length} bh={m.blocked.length}"
